@@ -59,8 +59,11 @@ def orders(draw, lo, hi):
 def dense_holder(draw, shape, vkind, patterns=PATTERNS):
     n = ref.prod(shape)
     pattern = draw(st.sampled_from(list(patterns)))
-    return dict(holder="tensor", shape=list(shape), vkind=vkind, pattern=pattern,
-                data=pattern_values(draw, n, pattern, vkind))
+    out = dict(holder="tensor", shape=list(shape), vkind=vkind, pattern=pattern,
+               data=pattern_values(draw, n, pattern, vkind))
+    if vkind == "int" and draw(st.integers(0, 3)) == 0:
+        out["dtype"] = "int64"  # integer-valued data stored with an integer dtype (as in the docstring examples)
+    return out
 
 
 @st.composite
@@ -75,8 +78,11 @@ def sparse_holder(draw, shape, vkind, patterns=SPARSE_PATTERNS):
     elif order == "random" and len(entries) > 1:
         p = draw(st.permutations(range(len(entries))))
         entries = [entries[i] for i in p]
-    return dict(holder="sptensor", shape=list(shape), vkind=vkind, pattern=pattern, order=order,
-                subs=[e[0] for e in entries], vals=[e[1] for e in entries])
+    out = dict(holder="sptensor", shape=list(shape), vkind=vkind, pattern=pattern, order=order,
+               subs=[e[0] for e in entries], vals=[e[1] for e in entries])
+    if vkind == "int" and draw(st.integers(0, 3)) == 0:
+        out["dtype"] = "int64"
+    return out
 
 
 @st.composite
@@ -147,8 +153,13 @@ def build(h):
     """pyttb object of a holder case."""
     k = h["holder"]
     if k == "tensor":
+        if h.get("dtype") == "int64":
+            return ttb.tensor(gen.arr_F(h["shape"], h["data"]).astype(np.int64).copy(order="F"), tuple(h["shape"]))
         return gen.build_tensor(h)
     if k == "sptensor":
+        if h.get("dtype") == "int64" and h["subs"]:
+            subs = np.array(h["subs"], dtype=int).reshape(len(h["subs"]), len(h["shape"]))
+            return ttb.sptensor(subs, np.array(h["vals"], dtype=np.int64).reshape(-1, 1), tuple(h["shape"]))
         return gen.build_sptensor(h)
     if k == "ktensor":
         return gen.build_ktensor(h)
@@ -213,6 +224,8 @@ def holder_labels(h) -> List[str]:
         out += ["nnz0" if not h["subs"] else ("nnz1" if len(h["subs"]) == 1 else "nnz>1"), "stored-" + h["order"]]
     if k == "tensor":
         out.append("pattern-" + h["pattern"])
+    if k in ("tensor", "sptensor"):
+        out.append("dtype-" + h.get("dtype", "float64"))
     if k == "ttensor":
         out.append("sparse-core" if h["sparse_core"] else "dense-core")
     if k == "ktensor":
